@@ -59,6 +59,20 @@ pub fn dispatch(f: &[&str]) -> Option<String> {
             let r: String = it.collect();
             format!("T:{}|{}", hex(t.as_bytes()), hex(r.as_bytes()))
         },
+        "sym_mode" => {
+            let (dir, link) = match f[1] {
+                "f" => (false, None),
+                "d" => (true, None),
+                "lf" => (false, Some("/t")),
+                _ => (true, Some("/t")),
+            };
+            let e = sys::verif::memfs_entry("/x/e", dir, link, f[2].parse().unwrap()).unwrap();
+            match sys::verif::sym_mode(&e, f[3].parse().unwrap(), &a(4)) {
+                Ok(m) => format!("N:{}", m),
+                Err(e) => crate::pure::errkind(&e),
+            }
+        },
+        "revoking_mode" => format!("B:{}", if sys::verif::revoking_mode(f[1].parse().unwrap(), f[2].parse().unwrap()) { 1 } else { 0 }),
         // every non-ASCII scalar lower-cases to something that cannot decide an all-ASCII comparison
         // used by the models (to_bool: "false", "0"; trim_protocol: the four schemes)
         "lowercase_scan" => {
